@@ -2,7 +2,8 @@
  * with -include c13_trace.h.  Calls every public arithmetic mpc_* function once per
  * aliasing pattern of its pointer arguments and prints, one line per call,
  *   name|function|pattern|spec|args|instr;instr;...
- * where operands are named by address (RcRe RcIm C1Re C1Im C2Re C2Im F1, fresh T n for
+ * (and of gmptools.c for the mpf_*_si helpers)
+ * where operands are named by address (RcRe RcIm C1Re C1Im C2Re C2Im F1 F2, fresh T n for
  * anything else: thread-local cache slots, stack temporaries).  checks/C13.py renders
  * the lines as coq/Mpc/Gen/MpcGen.v. */
 #define C13_TRACER_IMPL 1
@@ -10,7 +11,7 @@
 #include <string.h>
 
 static int tr_on = 0;
-static const void *known[8]; static const char *known_name[8]; static int nknown;
+static const void *known[10]; static const char *known_name[10]; static int nknown;
 static const void *temps[256]; static int ntemps;
 static char buf[1 << 16]; static size_t blen;
 
@@ -55,7 +56,7 @@ void vf_tr_clear (mpf_ptr d) { LOG ("Iclear %s", nm (d)); __gmpf_clear (d); }
 void vf_tr_move (mpf_ptr d, mpf_srcptr a) { LOG ("Imove %s %s", nm (d), nm (a)); *d = *a; }
 void vf_tr_other (const char *what, mpf_ptr d) { LOG ("Iother %s", nm (d)); (void)what; }
 
-enum sig { S_CC, S_CCC, S_CCF, S_CFC, S_CCU, S_CCUU, S_CUUC, S_CUC, S_FC, S_C, S_CCS, S_CUU };
+enum sig { S_CC, S_CCC, S_CCF, S_CFC, S_CCU, S_CCUU, S_CUUC, S_CUC, S_FC, S_C, S_CCS, S_CUU, S_HFS };
 struct fn { const char *name; enum sig sig; long p1, p2; };
 #define UR 3
 #define UI 5
@@ -74,9 +75,14 @@ static const struct fn fns[] = {
   {"mpc_pow_si", S_CCS, -3}, {"mpc_pow_si", S_CCS, -1}, {"mpc_pow_si", S_CCS, 0}, {"mpc_pow_si", S_CCS, 1},
   {"mpc_pow_si", S_CCS, 2}, {"mpc_pow_si", S_CCS, 3}, {"mpc_pow_si", S_CCS, 5}, {"mpc_pow_si", S_CCS, 6},
   {"mpc_smod_eq", S_C}, {"mpc_mod_eq", S_C}, {"mpc_rot_eq", S_C}, {"mpc_flip_eq", S_C},
+  /* gmptools.c helpers (h, f, long): a positive, zero, a negative argument and LONG_MIN */
+#define HFS(N) {N, S_HFS, 7}, {N, S_HFS, 0}, {N, S_HFS, -7}, {N, S_HFS, (-9223372036854775807L - 1)}
+  HFS ("mpf_add_si"), HFS ("mpf_sub_si"), HFS ("mpf_si_sub"), HFS ("mpf_mul_si"),
+  {"mpf_div_si", S_HFS, 7}, {"mpf_div_si", S_HFS, -7}, {"mpf_div_si", S_HFS, (-9223372036854775807L - 1)},
+  HFS ("mpf_si_div"),
 };
 
-static void call (const struct fn *f, mpc_t rc, mpc_t c1, mpc_t c2, mpf_ptr g)
+static void call (const struct fn *f, mpc_t rc, mpc_t c1, mpc_t c2, mpf_ptr g, mpf_ptr h)
 {
   const char *n = f->name;
 #define IS(x) (!strcmp (n, x))
@@ -114,6 +120,12 @@ static void call (const struct fn *f, mpc_t rc, mpc_t c1, mpc_t c2, mpf_ptr g)
   else if (IS ("mpc_mod_eq")) mpc_mod_eq (rc);
   else if (IS ("mpc_rot_eq")) mpc_rot_eq (rc);
   else if (IS ("mpc_flip_eq")) mpc_flip_eq (rc);
+  else if (IS ("mpf_add_si")) mpf_add_si (h, g, f->p1);
+  else if (IS ("mpf_sub_si")) mpf_sub_si (h, g, f->p1);
+  else if (IS ("mpf_si_sub")) mpf_si_sub (h, f->p1, g);
+  else if (IS ("mpf_mul_si")) mpf_mul_si (h, g, f->p1);
+  else if (IS ("mpf_div_si")) mpf_div_si (h, g, f->p1);
+  else if (IS ("mpf_si_div")) mpf_si_div (h, f->p1, g);
   else { fprintf (stderr, "unknown function %s\n", n); exit (3); }
 }
 
@@ -125,17 +137,18 @@ static const struct pat pats2[] = { {"rc,c", 0, 1, -1}, {"rc=c", 0, 0, -1} };
 static const struct pat pats1c[] = { {"c", 0, 0, -1} };      /* op= forms: c is destination and source */
 static const struct pat pats1r[] = { {"rc", 0, -1, -1} };    /* set_ui */
 static const struct pat patsf[] = { {"f,c", -1, 1, -1} };    /* smod/mod: destination is the mpf */
+static const struct pat patsh[] = { {"h,f", -1, -1, -1}, {"h=f", -1, -1, -1} };   /* gmptools helpers: destination mpf h, source mpf f */
 
 /* fov: partial-overlap survey, the mpf argument is a component of an mpc argument:
  * 0 none, 1 f = Re(rc), 2 f = Im(rc), 3 f = Re(c), 4 f = Im(c) */
 static void one (const struct fn *f, const struct pat *p, int pi, unsigned long prec, int fov)
 {
-  mpc_t o[3]; mpf_t g; int i, pass; mpf_ptr gp = g; char gname[32] = "F1";
+  mpc_t o[3]; mpf_t g, h2; int i, pass; mpf_ptr gp = g; char gname[32] = "F1";
   static const char *re_n[3] = { "RcRe", "C1Re", "C2Re" }, *im_n[3] = { "RcIm", "C1Im", "C2Im" };
   for (pass = 0; pass < 2; pass++)      /* pass 0 warms the thread-local cache, pass 1 is logged */
     {
       for (i = 0; i < 3; i++) { mpc_init2 (o[i], prec); }
-      __gmpf_init2 (g, prec);
+      __gmpf_init2 (g, prec); __gmpf_init2 (h2, prec); __gmpf_set_d (h2, 13.0);
       __gmpf_set_d (mpc_Re (o[0]), 1.0); __gmpf_set_d (mpc_Im (o[0]), 1.0);
       __gmpf_set_d (mpc_Re (o[1]), 3.0); __gmpf_set_d (mpc_Im (o[1]), 2.0);
       __gmpf_set_d (mpc_Re (o[2]), 5.0); __gmpf_set_d (mpc_Im (o[2]), -7.0);
@@ -147,23 +160,26 @@ static void one (const struct fn *f, const struct pat *p, int pi, unsigned long 
           known[nknown] = mpc_Im (o[i]); known_name[nknown++] = im_n[i];
         }
       known[nknown] = g; known_name[nknown++] = "F1";
+      known[nknown] = h2; known_name[nknown++] = "F2";
       {
         __mpc_struct *orc = o[p->rc < 0 ? 0 : p->rc], *oc1 = o[p->c1 < 0 ? 1 : p->c1];
         gp = fov == 1 ? mpc_Re (orc) : fov == 2 ? mpc_Im (orc) : fov == 3 ? mpc_Re (oc1) : fov == 4 ? mpc_Im (oc1) : g;
         snprintf (gname, sizeof gname, "%s", nm (gp));
       }
       tr_on = pass;
-      call (f, o[p->rc < 0 ? 0 : p->rc], o[p->c1 < 0 ? 1 : p->c1], o[p->c2 < 0 ? 2 : p->c2], gp);
+      call (f, o[p->rc < 0 ? 0 : p->rc], o[p->c1 < 0 ? 1 : p->c1], o[p->c2 < 0 ? 2 : p->c2], gp,
+            (f->sig == S_HFS && pi == 1) ? gp : h2);
       tr_on = 0;
       for (i = 0; i < 3; i++) { __gmpf_clear (mpc_Re (o[i])); __gmpf_clear (mpc_Im (o[i])); }
-      __gmpf_clear (g);
+      __gmpf_clear (g); __gmpf_clear (h2);
     }
   {
     char name[96], spec[96]; int c1 = p->c1 < 0 ? 1 : p->c1, c2 = p->c2 < 0 ? 2 : p->c2;
     switch (f->sig)
       {
-      case S_CCS:
-        snprintf (name, sizeof name, "%s_%s%ld_p%d", f->name, f->p1 < 0 ? "m" : "", labs (f->p1), pi);
+      case S_CCS: case S_HFS:
+        snprintf (name, sizeof name, "%s_%s%lu_p%d", f->name, f->p1 < 0 ? "m" : "",
+                  f->p1 < 0 ? -(unsigned long)f->p1 : (unsigned long)f->p1, pi);
         snprintf (spec, sizeof spec, "spec_%s (%ld)", f->name, f->p1); break;
       case S_CCU: case S_CUC:
         snprintf (name, sizeof name, "%s_p%d", f->name, pi);
@@ -179,12 +195,12 @@ static void one (const struct fn *f, const struct pat *p, int pi, unsigned long 
       {
         char nn[128]; static const char *fd[5] = { "", "f=Re(rc)", "f=Im(rc)", "f=Re(c)", "f=Im(c)" };
         snprintf (nn, sizeof nn, "ov_%s_f%s", name, gname);
-        printf ("%s|%s|%s;%s|%s|mkargs (RcRe, RcIm) (%s, %s) (%s, %s) %s|%s\n", nn, f->name, p->desc, fd[fov], spec,
+        printf ("%s|%s|%s;%s|%s|mkargs (RcRe, RcIm) (%s, %s) (%s, %s) %s F2|%s\n", nn, f->name, p->desc, fd[fov], spec,
                 re_n[c1], im_n[c1], re_n[c2], im_n[c2], gname, buf);
       }
     else
-      printf ("%s|%s|%s|%s|mkargs (RcRe, RcIm) (%s, %s) (%s, %s) F1|%s\n", name, f->name, p->desc, spec,
-              re_n[c1], im_n[c1], re_n[c2], im_n[c2], buf);
+      printf ("%s|%s|%s|%s|mkargs (RcRe, RcIm) (%s, %s) (%s, %s) F1 %s|%s\n", name, f->name, p->desc, spec,
+              re_n[c1], im_n[c1], re_n[c2], im_n[c2], (f->sig == S_HFS && pi == 1) ? "F1" : "F2", buf);
   }
 }
 
@@ -201,6 +217,7 @@ int main (int argc, char **argv)
         case S_FC: ps = patsf; np = 1; break;
         case S_C: ps = pats1c; np = 1; break;
         case S_CUU: ps = pats1r; np = 1; break;
+        case S_HFS: ps = patsh; np = 2; break;
         default: ps = pats2; np = 2;
         }
       for (i = 0; i < np; i++) one (f, &ps[i], i, prec, 0);
